@@ -48,7 +48,7 @@ def is_z3(x):
 
 
 def is_scalar(x):
-    return isinstance(x, (int, Fraction, bool, NS)) or (is_z3(x) and not z3.is_array(x)) \
+    return isinstance(x, (int, Fraction, bool, NS, Count)) or (is_z3(x) and not z3.is_array(x)) \
         or isinstance(x, float)
 
 
@@ -187,6 +187,10 @@ def _arith(op, a, b):
 
 
 def arith(op, a, b):
+    if isinstance(a, Count):
+        a = a.term()
+    if isinstance(b, Count):
+        b = b.term()
     if is_fp(a) or is_fp(b):
         return fp_arith(op, a, b)
     nan = or_nan(nan_of(a), nan_of(b))
@@ -287,6 +291,12 @@ def fp_arith(op, a, b):
 
 def compare(op, a, b):
     """IEEE-style: any comparison with NaN is False except != which is True."""
+    if isinstance(a, Count) and (is_z3(b) or isinstance(b, Count)):
+        a = a.term()
+    if isinstance(b, Count) and (is_z3(a) or isinstance(a, Count)):
+        b = b.term()
+    if isinstance(a, Count) and isinstance(b, int) and not isinstance(b, bool) and False:
+        a = a.term()
     if is_fp(a) or is_fp(b):
         return fp_compare(op, a, b)
     nan = or_nan(nan_of(a), nan_of(b))
@@ -522,11 +532,45 @@ def power(a, e):
 # ----------------------------------------------------------------------------------------------
 # arrays
 
+def count_term(mask):
+    """the z3 Int symbol standing for the number of True entries of `mask` (one per mask object)"""
+    d = mask.__dict__
+    if "_cnt_term" not in d:
+        d["_cnt_term"] = fresh("cnt", "int")
+    return d["_cnt_term"]
+
+
+def sel_fn(mask):
+    """sel(k) = position of the k-th True entry of mask (A4: order-preserving compress)"""
+    d = mask.__dict__
+    if "_sel_fn" not in d:
+        d["_sel_fn"] = z3.Function("sel!%d" % next(_counter), z3.IntSort(), z3.IntSort())
+    return d["_sel_fn"]
+
+
+def sel_axioms(mask):
+    """axioms of compress for `mask`: sel maps [0, cnt) strictly increasingly onto the True positions"""
+    c, sel = count_term(mask), sel_fn(mask)
+    k, k2, b = z3.Int("k!sel"), z3.Int("k2!sel"), z3.Int("b!sel")
+    n = mask.n if not isinstance(mask.n, Count) else count_term(mask.n.mask)
+    rank = z3.Function("rank!%s" % sel.name(), z3.IntSort(), z3.IntSort())
+    return [c >= 0, B(compare("<=", c, n)),
+            z3.ForAll([k], z3.Implies(z3.And(k >= 0, k < c),
+                                      z3.And(sel(k) >= 0, B(compare("<", sel(k), n)), B(mask.f(sel(k))),
+                                             rank(sel(k)) == k))),
+            z3.ForAll([b], z3.Implies(z3.And(b >= 0, B(compare("<", b, n)), B(mask.f(b))),
+                                      z3.And(rank(b) >= 0, rank(b) < c, sel(rank(b)) == b))),
+            z3.ForAll([k, k2], z3.Implies(z3.And(k >= 0, k < k2, k2 < c), sel(k) < sel(k2)))]
+
+
 class Count:
     """np.sum(mask): number of True entries of a boolean array (symbolic)"""
 
     def __init__(self, mask):
         self.mask = mask
+
+    def term(self):
+        return count_term(self.mask)
 
     def cmp(self, op, other):
         # the count is not related to anything else: comparisons are fresh symbolic booleans
@@ -691,6 +735,21 @@ class Comp:
         return "Comp(%r)" % (self.mask,)
 
 
+class Col2D:
+    """x[:, None]: a column vector, only used to form the pair mask  A == B[:, None]"""
+
+    def __init__(self, arr):
+        self.arr = arr
+
+
+class PairMask:
+    """A == B[:, None]  (shape len(B) x len(A)): np.where gives the pairs (s, b) with A[b] == B[s]"""
+
+    def __init__(self, a, b):
+        self.a = a        # row vector (e.g. a pit column)
+        self.b = b        # column vector (e.g. the slack node numbers)
+
+
 class Bag:
     """np.concatenate of index arrays, only used for membership"""
 
@@ -713,6 +772,10 @@ def is_array(x):
 def same_term(a, b):
     if a is b:
         return True
+    if isinstance(a, Count) and is_z3(b):
+        return a.term().eq(b)
+    if isinstance(b, Count) and is_z3(a):
+        return b.term().eq(a)
     if is_z3(a) and is_z3(b):
         return a.eq(b)
     if not is_z3(a) and not is_z3(b) and not isinstance(a, Count) and not isinstance(b, Count):
@@ -732,6 +795,8 @@ def in_image(mask_f, idx_f, n, x):
 
 
 def member(coll, x):
+    if getattr(coll, "member_fn", None) is not None:
+        return coll.member_fn(x)      # membership predicate supplied by the producing contract
     if isinstance(coll, SetVal):
         return coll.member(x)
     if isinstance(coll, Bag):
